@@ -2,8 +2,9 @@
    Structure: (1) list lemmas; (2) an abstract transition system over (block contents, queue, seen-set, mempool,
    taken, released) and the invariants of the property proved on it; (3) the shape invariant of the concrete model
    and the refinement: every item of a history is a short sequence of abstract transitions, where the lossy
-   transition is used exactly by the items the guard excludes and partial marking only by crashed items;
-   (4) the theorems over histories; (5) the witnesses. *)
+   transition is used exactly by the items the guard excludes and partial marking / a kept queue record only by
+   crashed or faulted items (write faults: [fault_at], [fault_none], [produce_fault_effect], [reap_fault_effect]);
+   (4) the theorems over histories; (5) the witnesses, (5b) the harmless cursor fault. *)
 From Coq Require Import NArith ZArith List Bool Arith Lia.
 From Verif Require Import Model.Reaper.
 Import ListNotations.
@@ -121,24 +122,28 @@ Proof. exists (filter f (skipn n l)). rewrite <- filter_app, firstn_skipn. refle
 Record abs := mk_abs {
   aB : list (list tx);      (* contents of the block records, by height *)
   aQ : list batch;          (* the queue *)
+  aZ : list batch;          (* stale queue records: handed out, their Delete failed *)
   aS : list tx;             (* the seen-set *)
   aM : list tx;             (* the mempool *)
   aT : list tx;             (* taken *)
   aR : list batch           (* released *)
 }.
 
-Definition absf (s : st) : abs := mk_abs (block_txs s) (queue s) (seen s) (mem s) (taken s) (released s).
+Definition absf (s : st) : abs := mk_abs (block_txs s) (queue s) (stale s) (seen s) (mem s) (taken s) (released s).
 
-(* fl: the lossy transition may be used; fc: a hand-off may be cut between its marks *)
+(* fl: the lossy transition may be used; fc: the traces of a crash or of a write fault may appear — a hand-off
+   with only some of its marks, a record kept although its batch was handed out *)
 Inductive tr (fl fc : bool) : abs -> abs -> Prop :=
-| t_arrive B Q S M T R t : tr fl fc (mk_abs B Q S M T R) (mk_abs B Q S (M ++ [t]) T R)
-| t_take B Q S M T R : tr fl fc (mk_abs B Q S M T R) (mk_abs B Q S M (T ++ M) R)
-| t_put B Q S M T R p r : p ++ r = select S [] M -> p ++ r <> [] -> (fc = false -> r = []) ->
-    tr fl fc (mk_abs B Q S M T R) (mk_abs B (Q ++ [p ++ r]) (rev p ++ S) M T R)
-| t_drop B Q S M T R b : fl = true -> tr fl fc (mk_abs B (b :: Q) S M T R) (mk_abs B Q S M T (R ++ [b]))
-| t_move B Q S M T R b : tr fl fc (mk_abs B (b :: Q) S M T R) (mk_abs (B ++ [b]) Q S M T (R ++ [b]))
-| t_empty B Q S M T R : tr fl fc (mk_abs B Q S M T R) (mk_abs (B ++ [[]]) Q S M T R)
-| t_exec B Q S M T R x : In x B -> tr fl fc (mk_abs B Q S M T R) (mk_abs B Q S (filter (fun t => negb (memb t x)) M) T R).
+| t_arrive B Q Z S M T R t : tr fl fc (mk_abs B Q Z S M T R) (mk_abs B Q Z S (M ++ [t]) T R)
+| t_take B Q Z S M T R : tr fl fc (mk_abs B Q Z S M T R) (mk_abs B Q Z S M (T ++ M) R)
+| t_put B Q Z S M T R n p : n = select S [] M -> n <> [] -> (forall x, In x p -> In x n) -> (fc = false -> p = n) ->
+    tr fl fc (mk_abs B Q Z S M T R) (mk_abs B (Q ++ [n]) Z (rev p ++ S) M T R)
+| t_keep B Q Z S M T R b : fc = true -> In b Q -> tr fl fc (mk_abs B Q Z S M T R) (mk_abs B Q (Z ++ [b]) S M T R)
+| t_requeue B Q Z S M T R : tr fl fc (mk_abs B Q Z S M T R) (mk_abs B (Z ++ Q) [] S M T R)
+| t_drop B Q Z S M T R b : fl = true -> tr fl fc (mk_abs B (b :: Q) Z S M T R) (mk_abs B Q Z S M T (R ++ [b]))
+| t_move B Q Z S M T R b : tr fl fc (mk_abs B (b :: Q) Z S M T R) (mk_abs (B ++ [b]) Q Z S M T (R ++ [b]))
+| t_empty B Q Z S M T R : tr fl fc (mk_abs B Q Z S M T R) (mk_abs (B ++ [[]]) Q Z S M T R)
+| t_exec B Q Z S M T R x : In x B -> tr fl fc (mk_abs B Q Z S M T R) (mk_abs B Q Z S (filter (fun t => negb (memb t x)) M) T R).
 
 Inductive star (fl fc : bool) : abs -> abs -> Prop :=
 | star_refl a : star fl fc a a
@@ -162,7 +167,7 @@ Proof. intros Hl Hc. induction 1; [apply star_refl | eapply star_step; [eapply t
 Lemma star_inv (P : abs -> Prop) fl fc : (forall a b, tr fl fc a b -> P a -> P b) -> forall a b, star fl fc a b -> P a -> P b.
 Proof. intros H a b S. induction S; auto. intros; apply IHS. eapply H; eauto. Qed.
 
-(* -- no loss (without the lossy transition; crashes allowed) -- *)
+(* -- no loss (without the lossy transition; crashes and write faults allowed) -- *)
 Definition stored (a : abs) (t : tx) : Prop := In t (concat (aB a)) \/ In t (concat (aQ a)).
 
 Definition Pinv (a : abs) : Prop :=
@@ -171,24 +176,31 @@ Definition Pinv (a : abs) : Prop :=
 
 Lemma Pinv_tr fc a b : tr false fc a b -> Pinv a -> Pinv b.
 Proof.
-  intros H [Ha Hb]. destruct H; unfold Pinv, stored in *; cbn [aB aQ aS aM aT aR] in *.
+  intros H [Ha Hb]. destruct H; unfold Pinv, stored in *; cbn [aB aQ aZ aS aM aT aR] in *.
   - (* arrive *) split; [|exact Hb]. intros x Hx. destruct (Ha x Hx) as [?|[? ?]]; auto with datatypes.
   - (* take *) split; [|exact Hb]. intros x Hx. apply in_app_or in Hx as [Hx|Hx]; [auto|].
     destruct (memb x S) eqn:E; [left; apply Hb; apply memb_in; exact E | right; auto].
   - (* put *)
-    assert (Hq : forall x, In x (p ++ r) -> In x (concat (Q ++ [p ++ r]))).
+    assert (Hq : forall x, In x n -> In x (concat (Q ++ [n]))).
     { intros x Hx. rewrite concat_app. apply in_or_app; right. cbn. rewrite app_nil_r. exact Hx. }
-    assert (Hm : forall x, In x (concat Q) -> In x (concat (Q ++ [p ++ r]))).
+    assert (Hm : forall x, In x (concat Q) -> In x (concat (Q ++ [n]))).
     { intros x Hx. rewrite concat_app. apply in_or_app; left; exact Hx. }
     split.
     + intros x Hx. destruct (Ha x Hx) as [[?|?]|[Hi Hu]]; [auto | auto |].
       destruct (memb x (rev p ++ S)) eqn:E; [|right; auto].
       left; right. apply memb_in in E. apply in_app_or in E as [E|E].
-      * apply Hq. apply in_or_app; left. apply in_rev; exact E.
+      * apply Hq. apply H1. apply in_rev; exact E.
       * apply memb_false in Hu. contradiction.
     + intros x Hx. apply in_app_or in Hx as [Hx|Hx].
-      * right. apply Hq. apply in_or_app; left. apply in_rev; exact Hx.
+      * right. apply Hq. apply H1. apply in_rev; exact Hx.
       * destruct (Hb x Hx); auto.
+  - (* keep *) split; assumption.
+  - (* requeue *)
+    assert (Hm : forall x, In x (concat Q) -> In x (concat (Z ++ Q))).
+    { intros x Hx. rewrite concat_app. apply in_or_app; right; exact Hx. }
+    split.
+    + intros x Hx. destruct (Ha x Hx) as [[?|?]|?]; auto.
+    + intros x Hx. destruct (Hb x Hx); auto.
   - discriminate.
   - (* move *)
     assert (Hs : forall x, In x (concat B) \/ In x (concat (b :: Q)) -> In x (concat (B ++ [b])) \/ In x (concat Q)).
@@ -211,12 +223,16 @@ Qed.
 
 (* -- order: the non-empty block contents are released batches, in release order; without the lossy transition
       they are exactly the released batches -- *)
-Definition Qne (a : abs) : Prop := forall b, In b (aQ a) -> b <> [].
+Definition Qne (a : abs) : Prop := forall b, In b (aQ a) \/ In b (aZ a) -> b <> [].
 
 Lemma Qne_tr fl fc a b : tr fl fc a b -> Qne a -> Qne b.
 Proof.
-  intros H Hq. destruct H; unfold Qne in *; cbn [aQ] in *; auto with datatypes.
-  intros b Hb. apply in_app_or in Hb as [Hb|[<-|[]]]; auto.
+  intros H Hq. destruct H; unfold Qne in *; cbn [aQ aZ] in *; auto with datatypes.
+  - (* put *) intros b [Hb|Hb]; [|auto]. apply in_app_or in Hb as [Hb|[<-|[]]]; auto.
+  - (* keep *) intros b0 [Hb|Hb]; [auto|]. apply in_app_or in Hb as [Hb|[<-|[]]]; auto.
+  - (* requeue *) intros b [Hb|[]]. apply in_app_or in Hb as [Hb|Hb]; auto.
+  - intros b0 [Hb|Hb]; auto with datatypes.
+  - intros b0 [Hb|Hb]; auto with datatypes.
 Qed.
 
 Definition Oinv (a : abs) : Prop := Qne a /\ Subseq (filter nonempty (aB a)) (aR a).
@@ -231,49 +247,51 @@ Proof. rewrite filter_app. cbn. apply app_nil_r. Qed.
 Lemma Oinv_tr fl fc a b : tr fl fc a b -> Oinv a -> Oinv b.
 Proof.
   intros H [Hq Hs]. split; [eapply Qne_tr; eauto|].
-  destruct H; cbn [aB aR aQ] in *; auto.
+  destruct H; cbn [aB aR aQ aZ] in *; auto.
   - apply Subseq_snoc_skip; assumption.
-  - rewrite filter_snoc_ne by (apply Hq; left; reflexivity). apply Subseq_snoc_keep; assumption.
+  - rewrite filter_snoc_ne by (apply Hq; left; left; reflexivity). apply Subseq_snoc_keep; assumption.
   - rewrite filter_snoc_empty; assumption.
 Qed.
 
 Lemma Oeq_tr fc a b : tr false fc a b -> Oeq a -> Oeq b.
 Proof.
   intros H [Hq Hs]. split; [eapply Qne_tr; eauto|].
-  destruct H; cbn [aB aR aQ] in *; auto.
+  destruct H; cbn [aB aR aQ aZ] in *; auto.
   - discriminate.
-  - rewrite filter_snoc_ne by (apply Hq; left; reflexivity). rewrite Hs; reflexivity.
+  - rewrite filter_snoc_ne by (apply Hq; left; left; reflexivity). rewrite Hs; reflexivity.
   - rewrite filter_snoc_empty; assumption.
 Qed.
 
-(* -- no duplicates (without cut hand-offs; the lossy transition allowed) -- *)
+(* -- no duplicates (without the traces of crashes and write faults; the lossy transition allowed) -- *)
 Definition Dinv (a : abs) : Prop :=
-  NoDup (concat (aB a) ++ concat (aQ a)) /\ (forall t, In t (concat (aB a) ++ concat (aQ a)) -> In t (aS a)).
+  NoDup (concat (aB a) ++ concat (aQ a)) /\ (forall t, In t (concat (aB a) ++ concat (aQ a)) -> In t (aS a)) /\ aZ a = [].
 
 Lemma Dinv_tr fl a b : tr fl false a b -> Dinv a -> Dinv b.
 Proof.
-  intros H [Hn Hs]. destruct H; unfold Dinv in *; cbn [aB aQ aS] in *; auto.
-  - (* put: r = [] *)
-    rewrite (H1 eq_refl) in *. rewrite app_nil_r in *.
-    rewrite concat_app, app_assoc. cbn [concat]. rewrite app_nil_r. split.
+  intros H (Hn & Hs & Hz). destruct H; unfold Dinv in *; cbn [aB aQ aZ aS] in *; auto.
+  - (* put: p = n *)
+    rewrite (H2 eq_refl) in *.
+    rewrite concat_app, app_assoc. cbn [concat]. rewrite app_nil_r. split; [|split; [|exact Hz]].
     + apply NoDup_app_iff. repeat split.
       * exact Hn.
       * rewrite H. apply select_nodup.
       * intros x Hx Hp. rewrite H in Hp. apply select_sound in Hp as (_ & Hu & _).
         apply memb_false in Hu. apply Hu, Hs, Hx.
     + intros x Hx. apply in_or_app. apply in_app_or in Hx as [Hx|Hx]; [right; apply Hs; exact Hx | left; apply in_rev in Hx; exact Hx].
+  - (* keep *) discriminate.
+  - (* requeue: nothing is stale *) subst Z. cbn [app]. auto.
   - (* drop *)
-    cbn [concat] in *. split.
+    cbn [concat] in *. split; [|split; [|exact Hz]].
     + apply NoDup_app_iff in Hn as (H1 & H2 & H3). apply NoDup_app_iff in H2 as (H4 & H5 & H6).
       apply NoDup_app_iff. repeat split; auto. intros x Hx Hy. apply (H3 x Hx). apply in_or_app; right; exact Hy.
     + intros x Hx. apply Hs. apply in_app_or in Hx as [Hx|Hx]; apply in_or_app; [left; exact Hx | right; apply in_or_app; right; exact Hx].
   - (* move *)
     assert (E : concat (B ++ [b]) ++ concat Q = concat B ++ concat (b :: Q)).
     { rewrite concat_app. cbn. rewrite app_nil_r, app_assoc. reflexivity. }
-    rewrite E. split; assumption.
+    rewrite E. auto.
   - (* empty *)
     assert (E : concat (B ++ [[]]) = concat B) by (rewrite concat_app; cbn; rewrite app_nil_r; reflexivity).
-    rewrite E. split; assumption.
+    rewrite E. auto.
 Qed.
 
 (* ---- (3) the shape invariant of the concrete model and the refinement ------------------------------------------ *)
@@ -284,8 +302,9 @@ Definition dshape (s : st) : Prop :=
   ((sh s = th s /\ (length (blocks s) = th s \/ length (blocks s) = S (th s))) \/
    (sh s = S (th s) /\ length (blocks s) = S (th s))) /\
   (sh s = 0 -> forall x, In x (block_txs s) -> x = []).
-(* a running node has raised the store height to the state height and, before the first commit, saved the genesis block *)
-Definition ushape (s : st) : Prop := up s = true -> sh s = th s /\ (th s = 0 -> length (blocks s) = 1).
+(* a running node has, before the first commit, saved the genesis block (its state height is its store height, or —
+   after a failed store-height write — one above: [dshape]) *)
+Definition ushape (s : st) : Prop := up s = true -> th s = 0 -> length (blocks s) = 1.
 Definition shape (s : st) : Prop := dshape s /\ ushape s.
 
 Lemma apply_acts_app s a b : apply_acts s (a ++ b) = apply_acts (apply_acts s a) b.
@@ -296,7 +315,7 @@ Proof. reflexivity. Qed.
 
 (* the part of a state the abstraction does not see can change freely *)
 Definition same_abs (s1 s2 : st) : Prop :=
-  block_txs s2 = block_txs s1 /\ queue s2 = queue s1 /\ seen s2 = seen s1 /\ taken s2 = taken s1 /\ released s2 = released s1.
+  block_txs s2 = block_txs s1 /\ queue s2 = queue s1 /\ stale s2 = stale s1 /\ seen s2 = seen s1 /\ taken s2 = taken s1 /\ released s2 = released s1.
 
 (* the commit tail on a state whose last block record is the block of the next height *)
 Lemma tail_effect s1 l pb t k e :
@@ -318,7 +337,7 @@ Proof.
   assert (Hlen2 : forall sg, length (l ++ [{| b_txs := b_txs pb; b_time := t; b_signed := sg |}]) = S (th s1)).
   { intros sg. rewrite app_length; cbn; lia. }
   destruct k as [|[|[|k]]]; destruct e; cbn [cut apply_acts fold_left apply_act apply_wr pred
-      set_mem set_blocks set_sh set_th up mem seen queue blocks sh th taken released];
+      set_mem set_blocks set_sh set_th up mem seen queue stale blocks sh th taken released];
     rewrite ?Hset, ?Hmap, ?Hlen2;
     repeat split; auto; try lia; try discriminate; try (intros E; discriminate E).
 Qed.
@@ -327,7 +346,7 @@ Lemma same_abs_star fl fc s1 s2 x :
   same_abs s1 s2 -> (mem s2 = mem s1 \/ mem s2 = filter (fun t => negb (memb t x)) (mem s1)) -> In x (block_txs s1) ->
   star fl fc (absf s1) (absf s2).
 Proof.
-  intros (H1 & H2 & H3 & H4 & H5) Hm Hx. unfold absf. rewrite H1, H2, H3, H4, H5.
+  intros (H1 & H2 & H2' & H3 & H4 & H5) Hm Hx. unfold absf. rewrite H1, H2, H2', H3, H4, H5.
   destruct Hm as [->| ->]; [apply star_refl | apply star_one, t_exec, Hx].
 Qed.
 
@@ -342,7 +361,7 @@ Lemma tail_wrap fl s s1 l pb t k e :
   let L := commit_tail (S (th s1)) (b_txs pb) t in
   let s2 := apply_acts s1 (cut k e L) in
   dshape s2 /\ up s2 = up s1 /\ star fl false (absf s) (absf s2) /\
-  (cut k e L = L -> sh s2 = th s2 /\ (th s2 = 0 -> length (blocks s2) = 1)).
+  (th s2 = 0 -> length (blocks s2) = 1).
 Proof.
   intros Hb Hl Hs H0 Hst L s2.
   destruct (tail_effect s1 l pb t k e Hb Hl Hs) as (Hsame & Hup & Hm & Hlen & Hcomb & Hfull).
@@ -354,8 +373,7 @@ Proof.
   - exact Hup.
   - eapply star_trans; [exact Hst|]. eapply same_abs_star; [exact Hsame | exact Hm |].
     unfold block_txs. rewrite Hb. apply in_block_txs_last.
-  - destruct (Hfull H); lia.
-  - intros Z. destruct (Hfull H); lia.
+  - intros Z. destruct Hcomb as [[A B]|[[A B]|[A B]]]; lia.
 Qed.
 
 Ltac quad := split; [|split; [|split]].
@@ -369,26 +387,50 @@ Lemma produce_effect ts s k e :
   let c := cut k e L in
   let s2 := apply_acts s c in
   dshape s2 /\ up s2 = true /\ star (lossy c) false (absf s) (absf s2) /\
-  (c = L -> sh s2 = th s2 /\ (th s2 = 0 -> length (blocks s2) = 1)).
+  (th s2 = 0 -> length (blocks s2) = 1).
 Proof.
-  intros [[Hd H0] Hu] Hup L c s2. destruct (Hu Hup) as [Hsh Hg]. subst s2 c L.
-  assert (Hlen : length (blocks s) = th s \/ length (blocks s) = S (th s)) by (destruct Hd as [[_ ?]|[? _]]; [assumption | lia]).
+  intros [[Hd H0] Hu] Hup L c s2. specialize (Hu Hup) as Hg. subst s2 c L.
   assert (Hsame0 : dshape s) by (split; assumption).
-  unfold produce_acts.
+  destruct (Nat.eqb_spec (sh s) (th s)) as [Hsh|Hne].
+  2:{ (* the state record is above the store height (a failed store-height write): the pending block is executed,
+         then refused *)
+    assert (Hs : sh s = S (th s) /\ length (blocks s) = S (th s)) by (destruct Hd as [[? _]|[? ?]]; [contradiction | split; assumption]).
+    destruct Hs as [Hs Hlen].
+    destruct (list_snoc_of_length _ _ Hlen) as (l & pb & Hb & Hl).
+    assert (Ep : nth_error (blocks s) (th s) = Some pb) by (rewrite Hb, <- Hl; apply nth_error_snoc).
+    assert (Elt : exists lt, (match th s with
+         | O => Some None
+         | S k => match nth_error (blocks s) k with Some b => Some (Some (b_time b)) | None => None end
+         end) = Some lt).
+    { destruct (th s) as [|n] eqn:Eth; [eexists; reflexivity|].
+      destruct (nth_error (blocks s) n) eqn:E0; [eexists; reflexivity | apply nth_error_None in E0; lia]. }
+    unfold produce_acts. cbv zeta. destruct Elt as [lt ->]. rewrite Ep.
+    destruct (Nat.eqb_spec (sh s) (th s)) as [?|_]; [contradiction|]. cbn [fst].
+    assert (Hx : In (b_txs pb) (block_txs s)) by (unfold block_txs; rewrite Hb; apply in_block_txs_last).
+    assert (Hl0 : forall c, c = [] \/ c = [AExec (b_txs pb)] -> lossy c = false) by (intros c0 [->| ->]; reflexivity).
+    assert (Hc : cut k e [AExec (b_txs pb)] = [] \/ cut k e [AExec (b_txs pb)] = [AExec (b_txs pb)])
+      by (destruct k; destruct e; cbn; auto).
+    rewrite (Hl0 _ Hc). destruct Hc as [-> | ->]; cbn [apply_acts fold_left apply_act].
+    - quad; [exact Hsame0 | exact Hup | apply star_refl | exact Hg].
+    - quad; [exact Hsame0 | exact Hup | | exact Hg].
+      apply star_one. unfold absf. cbn [block_txs blocks queue stale seen mem taken released set_mem]. apply t_exec. exact Hx. }
+  assert (Hlen : length (blocks s) = th s \/ length (blocks s) = S (th s)) by (destruct Hd as [[_ ?]|[? _]]; [assumption | lia]).
+  unfold produce_acts. cbv zeta. rewrite (proj2 (Nat.eqb_eq (sh s) (th s)) Hsh).
   destruct Hlen as [Hlen|Hlen].
   - (* no block above the store height *)
     destruct (th s) as [|n] eqn:Eth; [specialize (Hg eq_refl); lia|].
     destruct (nth_error (blocks s) n) as [b0|] eqn:E0; [|apply nth_error_None in E0; lia].
     destruct (nth_error (blocks s) (S n)) as [pb|] eqn:E1; [assert (nth_error (blocks s) (S n) <> None) as X by congruence; apply nth_error_Some in X; lia|].
+    assert (Hnz : th s = 0 -> length (blocks s) = 1) by (intros Z; lia).
     destruct (queue s) as [|b q] eqn:Eq.
     + (* empty queue *)
       destruct (before ts (Some (b_time b0))).
       * (* skipped *)
         cbn [fst]. destruct k; cbn [cut apply_acts fold_left apply_act apply_wr];
-          (quad; [exact Hsame0 | exact Hup | apply star_refl | intros _; split; lia]).
+          (quad; [exact Hsame0 | exact Hup | apply star_refl | exact Hnz]).
       * cbn [fst]. destruct k as [|[|k]].
-        -- cbn [cut apply_acts fold_left]. quad; [exact Hsame0 | exact Hup | apply star_refl | intros E; discriminate E].
-        -- cbn [cut apply_acts fold_left apply_act apply_wr]. quad; [exact Hsame0 | exact Hup | apply star_refl | intros E; discriminate E].
+        -- cbn [cut apply_acts fold_left]. quad; [exact Hsame0 | exact Hup | apply star_refl | exact Hnz].
+        -- cbn [cut apply_acts fold_left apply_act apply_wr]. quad; [exact Hsame0 | exact Hup | apply star_refl | exact Hnz].
         -- cbn [cut]. rewrite !apply_acts_cons. cbn [apply_act apply_wr pred].
            set (eb := {| b_txs := []; b_time := ts; b_signed := false |}).
            set (s1 := set_blocks (set_nth (S n) eb (blocks s)) s).
@@ -398,25 +440,24 @@ Proof.
            assert (Et : th s1 = S n) by (subst s1; cbn; lia).
            destruct (tail_wrap false s s1 (blocks s) eb ts k e Hb1) as (A & B & C & D).
            { rewrite Et; exact Hlen. } { rewrite Et; subst s1; cbn; lia. } { subst s1; cbn; intros; lia. }
-           { apply star_one. unfold absf, block_txs. subst s1; cbn [blocks queue seen mem taken released set_blocks].
+           { apply star_one. unfold absf, block_txs. subst s1; cbn [blocks queue stale seen mem taken released set_blocks].
              rewrite <- Hlen, set_nth_length, map_app. cbn. apply t_empty. }
            rewrite Et in A, B, C, D. cbn [b_txs eb] in A, B, C, D.
-           quad; [exact A | rewrite B; subst s1; exact Hup | exact C |].
-           intros E. injection E as E. exact (D E).
+           quad; [exact A | rewrite B; subst s1; exact Hup | exact C | exact D].
     + (* a batch is queued *)
       destruct (before ts (Some (b_time b0))).
       * (* F12: released, then an error *)
         cbn [fst]. destruct k as [|[|k]]; cbn [cut apply_acts fold_left apply_act apply_wr].
-        -- quad; [exact Hsame0 | exact Hup | apply star_refl | intros E; discriminate E].
-        -- quad; [exact Hsame0 | exact Hup | | intros E; discriminate E].
+        -- quad; [exact Hsame0 | exact Hup | apply star_refl | exact Hnz].
+        -- quad; [exact Hsame0 | exact Hup | | exact Hnz].
            unfold absf, block_txs. cbn. rewrite Eq. apply star_one, t_drop. reflexivity.
-        -- quad; [exact Hsame0 | exact Hup | | intros _; cbn; split; lia].
+        -- quad; [exact Hsame0 | exact Hup | | exact Hnz].
            unfold absf, block_txs. cbn. rewrite Eq. apply star_one, t_drop. reflexivity.
       * cbn [fst]. destruct k as [|[|[|k]]].
-        -- cbn [cut apply_acts fold_left]. quad; [exact Hsame0 | exact Hup | apply star_refl | intros E; discriminate E].
-        -- cbn [cut apply_acts fold_left apply_act apply_wr]. quad; [exact Hsame0 | exact Hup | | intros E; discriminate E].
+        -- cbn [cut apply_acts fold_left]. quad; [exact Hsame0 | exact Hup | apply star_refl | exact Hnz].
+        -- cbn [cut apply_acts fold_left apply_act apply_wr]. quad; [exact Hsame0 | exact Hup | | exact Hnz].
            unfold absf, block_txs. cbn. rewrite Eq. apply star_one, t_drop. reflexivity.
-        -- cbn [cut apply_acts fold_left apply_act apply_wr]. quad; [exact Hsame0 | exact Hup | | intros E; discriminate E].
+        -- cbn [cut apply_acts fold_left apply_act apply_wr]. quad; [exact Hsame0 | exact Hup | | exact Hnz].
            unfold absf, block_txs. cbn. rewrite Eq. apply star_one, t_drop. reflexivity.
         -- cbn [cut]. rewrite !apply_acts_cons. cbn [apply_act apply_wr pred].
            set (eb := {| b_txs := b; b_time := ts; b_signed := false |}).
@@ -428,11 +469,10 @@ Proof.
            assert (Et : th s1 = S n) by (subst s1 s0; cbn; lia).
            destruct (tail_wrap false s s1 (blocks s) eb ts k e Hb1) as (A & B & C & D).
            { rewrite Et; exact Hlen. } { rewrite Et; subst s1 s0; cbn; lia. } { subst s1 s0; cbn; intros; lia. }
-           { apply star_one. unfold absf, block_txs. subst s1 s0; cbn [blocks queue seen mem taken released set_blocks set_released set_queue].
+           { apply star_one. unfold absf, block_txs. subst s1 s0; cbn [blocks queue stale seen mem taken released set_blocks set_released set_queue].
              rewrite <- Hlen, set_nth_length, map_app, Eq. cbn. apply t_move. }
            rewrite Et in A, B, C, D. cbn [b_txs eb] in A, B, C, D.
-           quad; [exact A | rewrite B; subst s1 s0; exact Hup | exact C |].
-           intros E. injection E as E. exact (D E).
+           quad; [exact A | rewrite B; subst s1 s0; exact Hup | exact C | exact D].
   - (* the block of the next height is already stored: it is re-used *)
     destruct (list_snoc_of_length _ _ Hlen) as (l & pb & Hb & Hl).
     assert (Ep : nth_error (blocks s) (th s) = Some pb) by (rewrite Hb, <- Hl; apply nth_error_snoc).
@@ -459,7 +499,7 @@ Proof.
   unfold produce_acts.
   destruct (match th s with O => Some None | S k => match nth_error (blocks s) k with Some b => Some (Some (b_time b)) | None => None end end);
     [|reflexivity].
-  destruct (nth_error (blocks s) (th s)); [reflexivity|].
+  destruct (nth_error (blocks s) (th s)); [destruct (sh s =? th s); reflexivity|].
   destruct (queue s); destruct (before ts o); reflexivity.
 Qed.
 
@@ -473,6 +513,175 @@ Qed.
 
 Lemma has_del_marks p : has_del (map (fun t => AW (WSeen t)) p) = false.
 Proof. induction p; [reflexivity | exact IHp]. Qed.
+
+Lemma has_del_app a b : has_del (a ++ b) = has_del a || has_del b.
+Proof. apply existsb_app. Qed.
+
+Lemma has_block_app a b : has_block (a ++ b) = has_block a || has_block b.
+Proof. apply existsb_app. Qed.
+
+(* ---- write faults: what [fault] does, in terms of the write it hits -------------------------------------------- *)
+Lemma fault_none L : forall k, nth_error (writes_of L) k = None -> fault k L = (L, false).
+Proof.
+  induction L as [|[w|x] L IH]; intros k H; cbn [fault writes_of] in *.
+  - reflexivity.
+  - destruct k as [|k]; [discriminate|]. cbn [nth_error] in H. rewrite (IH k H). reflexivity.
+  - rewrite (IH k H). reflexivity.
+Qed.
+
+Lemma fault_at L : forall k w, nth_error (writes_of L) k = Some w ->
+  exists pre post, L = pre ++ AW w :: post /\ cut k true L = pre /\
+    fault k L = if swallowed w then (pre ++ AW (WFail w) :: post, false) else (pre ++ [AW (WFail w)], true).
+Proof.
+  induction L as [|[w0|x] L IH]; intros k w H; cbn [writes_of] in H.
+  - destruct k; discriminate.
+  - destruct k as [|k].
+    + injection H as <-. exists [], L. cbn [app cut fault]. split; [reflexivity | split; [reflexivity|]].
+      destruct (swallowed w0); reflexivity.
+    + cbn [nth_error] in H. destruct (IH k w H) as (pre & post & E1 & E2 & E3).
+      exists (AW w0 :: pre), post. cbn [cut fault]. rewrite E2, E3. split; [cbn [app]; f_equal; exact E1 | split; [reflexivity|]].
+      destruct (swallowed w); reflexivity.
+  - destruct (IH k w H) as (pre & post & E1 & E2 & E3).
+    exists (AExec x :: pre), post. cbn [fault]. rewrite E3. split; [cbn [app]; f_equal; exact E1 | split].
+    + destruct k; cbn [cut]; rewrite E2; reflexivity.
+    + destruct (swallowed w); reflexivity.
+Qed.
+
+(* a write error that is returned leaves no trace of the attempt *)
+Lemma fail_noop w s : swallowed w = false -> apply_wr s (WFail w) = s.
+Proof. destruct w; cbn; intros H; try discriminate H; reflexivity. Qed.
+
+Lemma lossy_swap pre post a a' :
+  is_del a = is_del a' ->
+  (match a with AW (WBlock _ _ _ _) => true | _ => false end) = (match a' with AW (WBlock _ _ _ _) => true | _ => false end) ->
+  lossy (pre ++ a :: post) = lossy (pre ++ a' :: post).
+Proof.
+  intros H1 H2. unfold lossy, has_del, has_block. rewrite !existsb_app. cbn [existsb]. rewrite H1, H2. reflexivity.
+Qed.
+
+Lemma lossy_trunc pre w : swallowed w = false -> lossy (pre ++ [AW (WFail w)]) = lossy pre.
+Proof.
+  intros H. unfold lossy. rewrite has_del_app, has_block_app. cbn.
+  destruct w; try discriminate H; cbn; rewrite !orb_false_r; reflexivity.
+Qed.
+
+Lemma apply_trunc s pre w : swallowed w = false -> apply_acts s (pre ++ [AW (WFail w)]) = apply_acts s pre.
+Proof. intros H. rewrite apply_acts_app. cbn [apply_acts fold_left apply_act]. apply fail_noop; exact H. Qed.
+
+Lemma fault_acts_fst max gt s a k : fst (fault_acts_of max gt s a k) = fst (fault k (fst (acts_of max gt s a))).
+Proof. unfold fault_acts_of. destruct (acts_of max gt s a) as [l c]. cbn [fst]. destruct (fault k l); reflexivity. Qed.
+
+(* the record of a handed-out batch that stays: the same step from a state in which it is already listed as stale *)
+Definition plain (a : act) : Prop := match a with AW (WFail _) => False | _ => True end.
+Definition add_stale (b : batch) (s : st) : st := set_stale (stale s ++ [b]) s.
+
+Lemma add_stale_act b a s : plain a -> apply_act (add_stale b s) a = add_stale b (apply_act s a).
+Proof. destruct a as [w|x]; [destruct w|]; cbn; intros H; try contradiction; reflexivity. Qed.
+
+Lemma add_stale_acts b l : Forall plain l -> forall s, apply_acts (add_stale b s) l = add_stale b (apply_acts s l).
+Proof.
+  induction 1 as [|a l Ha Hl IH]; intros s; [reflexivity|].
+  rewrite !apply_acts_cons, add_stale_act by exact Ha. apply IH.
+Qed.
+
+Lemma fail_qdel b s : apply_wr s (WFail (WQDel b)) = apply_wr (add_stale b s) (WQDel b).
+Proof. reflexivity. Qed.
+
+Lemma dshape_add_stale b s : dshape (add_stale b s) <-> dshape s.
+Proof. unfold dshape, block_txs. cbn. tauto. Qed.
+
+Lemma produce_acts_wf ts s :
+  Forall (fun a => plain a /\ (forall t, a <> AW (WSeen t)) /\ (forall b, a = AW (WQDel b) -> In b (queue s))) (fst (produce_acts ts s)).
+Proof.
+  assert (G : forall a, (match a with AW (WFail _) | AW (WSeen _) | AW (WQDel _) => False | _ => True end) ->
+              plain a /\ (forall t, a <> AW (WSeen t)) /\ (forall b, a = AW (WQDel b) -> In b (queue s))).
+  { intros [w|x]; [destruct w|]; cbn; intros H; try contradiction; repeat split; try discriminate. }
+  unfold produce_acts. cbv zeta.
+  destruct (match th s with O => Some None | S k => match nth_error (blocks s) k with Some b => Some (Some (b_time b)) | None => None end end);
+    [|constructor].
+  destruct (nth_error (blocks s) (th s)).
+  { destruct (sh s =? th s); cbn [fst commit_tail]; repeat (constructor; [apply G; exact I|]); constructor. }
+  destruct (queue s) as [|b q] eqn:Eq; destruct (before ts o); cbn [fst commit_tail].
+  - repeat (constructor; [apply G; exact I|]); constructor.
+  - repeat (constructor; [apply G; exact I|]); constructor.
+  - constructor; [|repeat (constructor; [apply G; exact I|]); constructor].
+    repeat split; try discriminate. intros b' E. injection E as <-. left; reflexivity.
+  - constructor; [|repeat (constructor; [apply G; exact I|]); constructor].
+    repeat split; try discriminate. intros b' E. injection E as <-. left; reflexivity.
+Qed.
+
+Lemma produce_fault_effect ts s k :
+  shape s -> up s = true ->
+  let c := fst (fault k (fst (produce_acts ts s))) in
+  let s2 := apply_acts s c in
+  dshape s2 /\ up s2 = true /\ star (lossy c) true (absf s) (absf s2) /\ (th s2 = 0 -> length (blocks s2) = 1).
+Proof.
+  intros Hs Hup c s2. subst s2 c.
+  pose proof (produce_acts_wf ts s) as Hwf.
+  assert (Hfull : forall s0, shape s0 -> up s0 = true ->
+            let L := fst (produce_acts ts s0) in let s2 := apply_acts s0 L in
+            dshape s2 /\ up s2 = true /\ star (lossy L) true (absf s0) (absf s2) /\ (th s2 = 0 -> length (blocks s2) = 1)).
+  { intros s0 Hs0 Hup0. destruct (produce_effect ts s0 10 true Hs0 Hup0) as (A & B & C & D). cbn zeta in A, B, C, D.
+    rewrite produce_acts_full in A, B, C, D. cbn zeta. quad; auto. eapply star_weaken; [| |exact C]; auto. }
+  set (L := fst (produce_acts ts s)) in *.
+  destruct (nth_error (writes_of L) k) as [w|] eqn:En.
+  2:{ rewrite (fault_none L k En). cbn [fst]. apply (Hfull s Hs Hup). }
+  destruct (fault_at L k w En) as (pre & post & E1 & E2 & E3). rewrite E3.
+  destruct (swallowed w) eqn:Esw; cbn [fst].
+  - (* the error is swallowed: the step goes on *)
+    assert (Hin : In (AW w) L) by (rewrite E1; apply in_or_app; right; left; reflexivity).
+    destruct (proj1 (Forall_forall _ _) Hwf _ Hin) as (_ & Hns & Hq).
+    destruct w; try discriminate Esw.
+    + (* the queue delete: the record stays *)
+      assert (Hpl : Forall plain pre).
+      { apply Forall_forall. intros a Ha. apply (proj1 (Forall_forall _ _) Hwf). rewrite E1. apply in_or_app; left; exact Ha. }
+      assert (Eapp : apply_acts s (pre ++ AW (WFail (WQDel b)) :: post) = apply_acts (add_stale b s) L).
+      { rewrite E1, !apply_acts_app, !apply_acts_cons. cbn [apply_act]. rewrite fail_qdel, add_stale_acts by exact Hpl. reflexivity. }
+      rewrite Eapp.
+      assert (El : lossy (pre ++ AW (WFail (WQDel b)) :: post) = lossy L) by (rewrite E1; apply lossy_swap; reflexivity).
+      rewrite El.
+      assert (Hs' : shape (add_stale b s)).
+      { destruct Hs as [Hd Hu]. split; [apply dshape_add_stale; exact Hd | exact Hu]. }
+      destruct (Hfull (add_stale b s) Hs' Hup) as (A & B & C & D). cbn zeta in A, B, C, D.
+      change (fst (produce_acts ts (add_stale b s))) with L in A, B, C, D.
+      quad; [exact A | exact B | | exact D].
+      eapply star_step; [|exact C].
+      unfold absf, block_txs, add_stale. cbn [blocks queue stale seen mem taken released set_stale].
+      apply t_keep; [reflexivity | apply Hq; reflexivity].
+    + (* the cursor write *)
+      assert (Eapp : apply_acts s (pre ++ AW (WFail WMeta) :: post) = apply_acts s L).
+      { rewrite E1, !apply_acts_app, !apply_acts_cons. reflexivity. }
+      rewrite Eapp.
+      assert (El : lossy (pre ++ AW (WFail WMeta) :: post) = lossy L) by (rewrite E1; apply lossy_swap; reflexivity).
+      rewrite El. apply (Hfull s Hs Hup).
+    + exfalso. exact (Hns t eq_refl).
+  - (* the error is returned: the step ends there *)
+    rewrite apply_trunc, lossy_trunc by exact Esw. rewrite <- E2.
+    destruct (produce_effect ts s k true Hs Hup) as (A & B & C & D). cbn zeta in A, B, C, D. fold L in A, B, C, D.
+    quad; auto. eapply star_weaken; [| |exact C]; auto.
+Qed.
+
+(* the hand-off: the batch is stored, then the transactions [p] of it are marked seen *)
+Lemma reap_put fc s n p marks :
+  up s = true -> n = select (seen s) [] (mem s) -> n <> [] -> (forall x, In x p -> In x n) -> (fc = false -> p = n) ->
+  has_del marks = false ->
+  (forall s', apply_acts s' marks = set_seen (rev p ++ seen s') s') ->
+  let s1 := set_taken (taken s ++ mem s) s in
+  let c := AW (WQPut n) :: marks in
+  lossy c = false /\ blocks (apply_acts s1 c) = blocks s /\ sh (apply_acts s1 c) = sh s /\ th (apply_acts s1 c) = th s /\
+  up (apply_acts s1 c) = true /\ star false fc (absf s) (absf (apply_acts s1 c)).
+Proof.
+  intros Hup En Hne Hp Hfc Hdel Hmarks s1 c. subst c. rewrite apply_acts_cons, Hmarks. cbn [apply_act apply_wr].
+  split; [unfold lossy; cbn [has_del existsb is_del]; change (existsb is_del marks) with (has_del marks); rewrite Hdel; reflexivity|].
+  subst s1. cbn [blocks sh th up set_seen set_queue set_taken seen queue]. repeat split; try exact Hup.
+  eapply star_step; [unfold absf, block_txs; cbn; apply t_take|].
+  apply star_one. unfold absf, block_txs.
+  cbn [blocks queue stale seen mem taken released set_seen set_queue set_taken].
+  apply t_put; assumption.
+Qed.
+
+Lemma firstn_incl {A} k (l : list A) x : In x (firstn k l) -> In x l.
+Proof. intros H. rewrite <- (firstn_skipn k l). apply in_or_app; left; exact H. Qed.
 
 Lemma reap_effect max s k e (crash : bool) :
   up s = true ->
@@ -492,24 +701,76 @@ Proof.
   { assert (E : (if crash then cut k e [] else []) = []) by (destruct crash; reflexivity). rewrite E.
     cbn. repeat split; auto. }
   set (n := t0 :: n') in *.
-  assert (Hput : forall p r, p ++ r = n -> (crash = false -> r = []) ->
-     let c := AW (WQPut n) :: map (fun t => AW (WSeen t)) p in
-     lossy c = false /\ blocks (apply_acts s1 c) = blocks s /\ sh (apply_acts s1 c) = sh s /\ th (apply_acts s1 c) = th s /\
-     up (apply_acts s1 c) = true /\ star false crash (absf s) (absf (apply_acts s1 c))).
-  { intros p r Hpr Hr c. subst c. rewrite apply_acts_cons, seen_marks. cbn [apply_act apply_wr].
-    split; [unfold lossy; cbn [has_del existsb]; rewrite (has_del_marks p : existsb _ _ = false); reflexivity|].
-    subst s1. cbn [blocks sh th up set_seen set_queue set_taken seen queue]. repeat split; try exact Hup.
-    eapply star_trans; [exact Htake|]. apply star_one. unfold absf, block_txs.
-    cbn [blocks queue seen mem taken released set_seen set_queue set_taken]. rewrite <- Hpr.
-    apply t_put; [rewrite Hpr; subst n; symmetry; exact En | rewrite Hpr; subst n; discriminate | exact Hr]. }
   destruct crash.
   - rewrite <- (map_map WSeen AW n).
     change (AW (WQPut n) :: map AW (map WSeen n)) with (map AW (WQPut n :: map WSeen n)).
     rewrite cut_writes. destruct k as [|k].
     + cbn. repeat split; auto.
     + cbn [firstn map]. rewrite firstn_map, map_map.
-      apply (Hput (firstn k n) (skipn k n)); [apply firstn_skipn | discriminate].
-  - apply (Hput n []); [apply app_nil_r | reflexivity].
+      apply (reap_put true s n (firstn k n)); auto.
+      * subst n; discriminate.
+      * intros x; apply firstn_incl.
+      * discriminate.
+      * apply has_del_marks.
+      * intros s'; apply seen_marks.
+  - apply (reap_put false s n n); auto.
+    + subst n; discriminate.
+    + apply has_del_marks.
+    + intros s'; apply seen_marks.
+Qed.
+
+(* a write fault inside the marks: the mark of one transaction is missing, the others are made *)
+Lemma fault_marks n : forall j, fault j (map (fun t => AW (WSeen t)) n) =
+  (match skipn j n with
+   | [] => map (fun t => AW (WSeen t)) n
+   | t :: r => map (fun t => AW (WSeen t)) (firstn j n) ++ AW (WFail (WSeen t)) :: map (fun t => AW (WSeen t)) r
+   end, false).
+Proof.
+  induction n as [|t n IH]; intros j.
+  - destruct j; reflexivity.
+  - destruct j as [|j]; [reflexivity|]. cbn [map fault skipn firstn]. rewrite IH.
+    destruct (skipn j n); reflexivity.
+Qed.
+
+Lemma seen_marks_but_one p1 t p2 s :
+  apply_acts s (map (fun t => AW (WSeen t)) p1 ++ AW (WFail (WSeen t)) :: map (fun t => AW (WSeen t)) p2) =
+  set_seen (rev (p1 ++ p2) ++ seen s) s.
+Proof.
+  rewrite apply_acts_app, apply_acts_cons, seen_marks. cbn [apply_act apply_wr]. rewrite seen_marks.
+  cbn [seen set_seen]. rewrite rev_app_distr, <- app_assoc. reflexivity.
+Qed.
+
+Lemma reap_fault_effect max s k :
+  up s = true ->
+  let c := fst (fault k (reap_acts max s)) in
+  let s2 := apply_acts (pre s AReap) c in
+  lossy c = false /\ blocks s2 = blocks s /\ sh s2 = sh s /\ th s2 = th s /\ up s2 = up s /\
+  star false true (absf s) (absf s2).
+Proof.
+  intros Hup c s2. subst s2 c. unfold pre. rewrite Hup. unfold reap_acts, new_txs.
+  set (s1 := set_taken (taken s ++ mem s) s).
+  assert (Htake : star false true (absf s) (absf s1)) by (apply star_one; unfold absf, block_txs; subst s1; cbn; apply t_take).
+  destruct (select (seen s) [] (mem s)) as [|t0 n'] eqn:En.
+  { destruct k; cbn; repeat split; auto. }
+  destruct (full max (queue s)).
+  { destruct k; cbn; repeat split; auto. }
+  set (n := t0 :: n') in *.
+  destruct k as [|j].
+  - (* the Put of the batch fails: the hand-off is refused, nothing is marked *)
+    cbn. repeat split; auto.
+  - cbn [fault]. rewrite fault_marks. cbn [fst].
+    destruct (skipn j n) as [|t r] eqn:Esk.
+    + apply (reap_put true s n n); auto.
+      * subst n; discriminate.
+      * apply has_del_marks.
+      * intros s'; apply seen_marks.
+    + assert (En' : n = firstn j n ++ t :: r) by (rewrite <- Esk; symmetry; apply firstn_skipn).
+      apply (reap_put true s n (firstn j n ++ r)); auto.
+      * subst n; discriminate.
+      * intros x Hx. rewrite En'. apply in_app_or in Hx as [Hx|Hx]; apply in_or_app; [left; exact Hx | right; right; exact Hx].
+      * discriminate.
+      * rewrite has_del_app, has_del_marks. cbn [has_del existsb is_del]. apply has_del_marks.
+      * intros s'. apply seen_marks_but_one.
 Qed.
 
 Lemma boot_effect gt s k e (crash : bool) :
@@ -572,44 +833,68 @@ Proof. reflexivity. Qed.
 Lemma dshape_set_up v s : dshape (set_up v s) <-> dshape s.
 Proof. unfold dshape, block_txs. cbn. tauto. Qed.
 
+(* start-up loads every record under /batches: the stale ones come back, in front *)
+Definition requeued (s : st) : st := set_queue (stale s ++ queue s) (set_stale [] s).
+
+Lemma dshape_requeued s : dshape (requeued s) <-> dshape s.
+Proof. unfold dshape, block_txs. cbn. tauto. Qed.
+
+Lemma star_requeued fl fc s : star fl fc (absf s) (absf (requeued s)).
+Proof. apply star_one. unfold absf, block_txs, requeued. cbn. apply t_requeue. Qed.
+
+Lemma boot_writes_hard gt s w : In (AW w) (boot_acts gt s) -> swallowed w = false.
+Proof.
+  unfold boot_acts. intros H. apply in_app_or in H as [H|H].
+  - destruct (sh s =? 0); [destruct H as [H|[]]; injection H as <-; reflexivity | destruct H].
+  - destruct (th s <? sh s); [destruct H as [H|[]]; injection H as <-; reflexivity | destruct H].
+Qed.
+
+(* an item that can leave the traces of a crash or of a write fault *)
+Definition is_rough (it : item) : bool := is_crash it || is_fault it.
+
 (* every item of a history is a short sequence of abstract transitions; the lossy one is used only by items the
-   guard excludes, a cut hand-off only by crashed items; and the shape invariant is kept *)
+   guard excludes, a cut hand-off / a kept record only by crashed or faulted items; and the shape invariant is kept *)
 Lemma step_refines max gt s it : shape s ->
-  shape (step max gt s it) /\ star (lossy (item_acts max gt s it)) (is_crash it) (absf s) (absf (step max gt s it)).
+  shape (step max gt s it) /\ star (lossy (item_acts max gt s it)) (is_rough it) (absf s) (absf (step max gt s it)).
 Proof.
   intros Hsh. pose proof Hsh as [Hd Hu].
-  destruct it as [t | a | a k e].
+  assert (Hux : forall x, ushape (set_up false x)) by (intros x Z; discriminate Z).
+  destruct it as [t | a | a k e | a k].
   - (* arrive *)
-    cbn [step item_acts is_crash]. split.
+    cbn [step item_acts is_rough is_crash is_fault orb]. split.
     + split; [exact Hd | exact Hu].
     + apply star_one. unfold absf, block_txs. cbn. apply t_arrive.
-  - cbn [step item_acts is_crash]. destruct a as [| | ts]; cbn [acts_of fst pre].
+  - cbn [step item_acts is_rough is_crash is_fault orb]. destruct a as [| | ts]; cbn [acts_of fst pre].
     + (* boot *)
-      destruct (boot_effect gt s 0 false false Hd) as (A & B & C & D). cbn iota in A, B, C, D.
+      fold (requeued s).
+      destruct (boot_effect gt (requeued s) 0 false false (proj2 (dshape_requeued s) Hd)) as (A & B & C & D). cbn iota in A, B, C, D.
+      change (boot_acts gt (requeued s)) with (boot_acts gt s) in A, B, C, D.
       rewrite A, absf_set_up. split; [split|].
       * apply dshape_set_up; exact B.
       * intros _. cbn [sh th blocks set_up]. apply D; reflexivity.
-      * eapply star_weaken; [| |exact C]; auto.
+      * eapply star_trans; [apply star_requeued | eapply star_weaken; [| |exact C]; auto].
     + (* reap *)
       destruct (up s) eqn:Eup.
       * destruct (reap_effect max s 0 false false Eup) as (A & B & C & D & E & F). cbn iota in A, B, C, D, E, F.
         unfold pre in B, C, D, E, F. rewrite Eup in B, C, D, E, F.
         cbn [fst]. rewrite A. split; [|exact F]. split.
         -- destruct Hd as [Hd1 Hd2]. split; [rewrite B, C, D; exact Hd1 | unfold block_txs; rewrite B, C; exact Hd2].
-        -- intros _. rewrite B, C, D. apply Hu; exact Eup.
+        -- intros _. rewrite B, D. apply Hu; exact Eup.
       * cbn [fst apply_acts fold_left]. split; [exact Hsh | apply star_refl].
     + (* produce *)
       destruct (up s) eqn:Eup.
       * destruct (produce_effect ts s 10 true Hsh Eup) as (A & B & C & D). cbn zeta in A, B, C, D.
         rewrite produce_acts_full in A, B, C, D.
         destruct (produce_acts ts s) as [L o] eqn:Ep. cbn [fst] in *.
-        split; [split; [exact A | intros _; apply D; reflexivity] | eapply star_weaken; [| |exact C]; auto].
+        split; [split; [exact A | intros _; exact D] | exact C].
       * cbn [fst apply_acts fold_left]. split; [exact Hsh | apply star_refl].
-  - cbn [step item_acts is_crash]. rewrite absf_set_up.
-    assert (Hux : forall x, ushape (set_up false x)) by (intros x Z; discriminate Z).
+  - cbn [step item_acts is_rough is_crash is_fault orb]. rewrite absf_set_up.
     destruct a as [| | ts]; cbn [acts_of fst pre].
-    + destruct (boot_effect gt s k e true Hd) as (A & B & C & D). cbn iota in A, B, C, D.
-      rewrite A. split; [split; [apply dshape_set_up; exact B | apply Hux] | eapply star_weaken; [| |exact C]; auto].
+    + fold (requeued s).
+      destruct (boot_effect gt (requeued s) k e true (proj2 (dshape_requeued s) Hd)) as (A & B & C & D). cbn iota in A, B, C, D.
+      change (boot_acts gt (requeued s)) with (boot_acts gt s) in A, B, C, D.
+      rewrite A. split; [split; [apply dshape_set_up; exact B | apply Hux] |].
+      eapply star_trans; [apply star_requeued | eapply star_weaken; [| |exact C]; auto].
     + destruct (up s) eqn:Eup.
       * destruct (reap_effect max s k e true Eup) as (A & B & C & D & E & F). cbn iota in A, B, C, D, E, F.
         unfold pre in B, C, D, E, F. rewrite Eup in B, C, D, E, F.
@@ -621,6 +906,43 @@ Proof.
         destruct (produce_acts ts s) as [L o] eqn:Ep. cbn [fst] in *.
         split; [split; [apply dshape_set_up; exact A | apply Hux] | eapply star_weaken; [| |exact C]; auto].
       * cbn [fst cut apply_acts fold_left]. split; [split; [apply dshape_set_up; exact Hd | apply Hux] | apply star_refl].
+  - (* a write fault *)
+    cbn [step item_acts is_rough is_crash is_fault orb]. rewrite fault_acts_fst.
+    destruct a as [| | ts]; cbn [acts_of fst pre].
+    + (* start-up: a failed write is returned, the node does not start *)
+      fold (requeued s). rewrite absf_set_up.
+      pose proof (proj2 (dshape_requeued s) Hd) as Hdr.
+      destruct (nth_error (writes_of (boot_acts gt s)) k) as [w|] eqn:En.
+      * destruct (fault_at _ k w En) as (pr & post & E1 & E2 & E3).
+        assert (Hw : swallowed w = false) by (apply (boot_writes_hard gt s); rewrite E1; apply in_or_app; right; left; reflexivity).
+        rewrite E3, Hw. cbn [fst snd negb]. rewrite apply_trunc, lossy_trunc by exact Hw. rewrite <- E2.
+        destruct (boot_effect gt (requeued s) k true true Hdr) as (A & B & C & D). cbn iota in A, B, C, D.
+        change (boot_acts gt (requeued s)) with (boot_acts gt s) in A, B, C, D.
+        rewrite A. split; [split; [apply dshape_set_up; exact B | apply Hux] |].
+        eapply star_trans; [apply star_requeued | eapply star_weaken; [| |exact C]; auto].
+      * rewrite (fault_none _ k En). cbn [fst snd negb].
+        destruct (boot_effect gt (requeued s) 0 false false Hdr) as (A & B & C & D). cbn iota in A, B, C, D.
+        change (boot_acts gt (requeued s)) with (boot_acts gt s) in A, B, C, D.
+        rewrite A. split; [split|].
+        -- apply dshape_set_up; exact B.
+        -- intros _. cbn [sh th blocks set_up]. apply D; reflexivity.
+        -- eapply star_trans; [apply star_requeued | eapply star_weaken; [| |exact C]; auto].
+    + (* reap *)
+      destruct (up s) eqn:Eup.
+      * destruct (reap_fault_effect max s k Eup) as (A & B & C & D & E & F). cbn zeta in A, B, C, D, E, F.
+        unfold pre in B, C, D, E, F. rewrite Eup in B, C, D, E, F.
+        cbn [fst]. rewrite A. split; [|exact F]. split.
+        -- destruct Hd as [Hd1 Hd2]. split; [rewrite B, C, D; exact Hd1 | unfold block_txs; rewrite B, C; exact Hd2].
+        -- intros _. rewrite B, D. apply Hu; exact Eup.
+      * cbn [fst]. assert (E : fault k [] = ([], false)) by (destruct k; reflexivity). rewrite E.
+        cbn [fst apply_acts fold_left]. split; [exact Hsh | apply star_refl].
+    + (* produce *)
+      destruct (up s) eqn:Eup.
+      * destruct (produce_fault_effect ts s k Hsh Eup) as (A & B & C & D). cbn zeta in A, B, C, D.
+        destruct (produce_acts ts s) as [L o] eqn:Ep. cbn [fst] in *.
+        split; [split; [exact A | intros _; exact D] | exact C].
+      * cbn [fst]. assert (E : fault k [] = ([], false)) by (destruct k; reflexivity). rewrite E.
+        cbn [fst apply_acts fold_left]. split; [exact Hsh | apply star_refl].
 Qed.
 
 (* ---- (4) histories ------------------------------------------------------------------------------------------ *)
@@ -652,23 +974,25 @@ Proof.
   eapply star_trans; [eapply star_weaken; [| |exact Hst]; auto | apply IH; assumption].
 Qed.
 
-(* without crashes: never a cut hand-off *)
-Lemma run_star_crashfree max gt h : forall s, shape s -> crash_free h = true -> star true false (absf s) (absf (run max gt s h)).
+(* without crashes and write faults: never a cut hand-off, never a kept record *)
+Lemma run_star_crashfree max gt h : forall s, shape s -> crash_free h = true -> fault_free h = true ->
+  star true false (absf s) (absf (run max gt s h)).
 Proof.
-  induction h as [|it h IH]; intros s Hs Hg; [apply star_refl|]. cbn [run]. cbn [crash_free forallb] in Hg.
+  induction h as [|it h IH]; intros s Hs Hg Hf; [apply star_refl|]. cbn [run]. cbn [crash_free fault_free forallb] in Hg, Hf.
   apply andb_true_iff in Hg as [Hl Hg]. apply negb_true_iff in Hl.
-  destruct (step_refines max gt s it Hs) as [Hs' Hst]. rewrite Hl in Hst.
+  apply andb_true_iff in Hf as [Hl' Hf]. apply negb_true_iff in Hl'.
+  destruct (step_refines max gt s it Hs) as [Hs' Hst]. unfold is_rough in Hst. rewrite Hl, Hl' in Hst.
   eapply star_trans; [eapply star_weaken; [| |exact Hst]; auto | apply IH; assumption].
 Qed.
 
 Lemma Pinv_st0 : Pinv (absf st0).
 Proof. split; intros t []. Qed.
 Lemma Oeq_st0 : Oeq (absf st0).
-Proof. split; [intros b [] | reflexivity]. Qed.
+Proof. split; [intros b [[]|[]] | reflexivity]. Qed.
 Lemma Oinv_st0 : Oinv (absf st0).
-Proof. split; [intros b [] | constructor]. Qed.
+Proof. split; [intros b [[]|[]] | constructor]. Qed.
 Lemma Dinv_st0 : Dinv (absf st0).
-Proof. split; [constructor | intros t []]. Qed.
+Proof. split; [constructor | split; [intros t [] | reflexivity]]. Qed.
 
 (* no loss, inside the guard *)
 Lemma no_loss_partial max gt h :
@@ -716,16 +1040,17 @@ Qed.
 
 (* no duplicates without crashes: for every crash-free history *)
 Lemma no_dup_full max gt h :
-  crash_free h = true -> NoDup (concat (block_txs (final max gt h)) ++ concat (queue (final max gt h))).
+  crash_free h = true -> fault_free h = true ->
+  NoDup (concat (block_txs (final max gt h)) ++ concat (queue (final max gt h))).
 Proof.
-  intros Hc.
+  intros Hc Hf.
   assert (HD : Dinv (absf (final max gt h))).
-  { eapply (star_inv Dinv true false); [intros a b; apply Dinv_tr | apply run_star_crashfree; [apply shape_st0 | exact Hc] | apply Dinv_st0]. }
+  { eapply (star_inv Dinv true false); [intros a b; apply Dinv_tr | apply run_star_crashfree; [apply shape_st0 | exact Hc | exact Hf] | apply Dinv_st0]. }
   destruct HD as [HN _]. exact HN.
 Qed.
 
-Lemma no_dup_chain_full max gt h : crash_free h = true -> NoDup (concat (block_txs (final max gt h))).
-Proof. intros Hc. apply no_dup_full with (max := max) (gt := gt) in Hc. apply NoDup_app_iff in Hc. tauto. Qed.
+Lemma no_dup_chain_full max gt h : crash_free h = true -> fault_free h = true -> NoDup (concat (block_txs (final max gt h))).
+Proof. intros Hc Hf. pose proof (no_dup_full max gt h Hc Hf) as H. apply NoDup_app_iff in H. tauto. Qed.
 
 (* a refused hand-off leaves no trace: nothing is marked seen, so the same transactions are offered again *)
 Lemma refused_no_trace max gt s :
@@ -737,39 +1062,68 @@ Proof.
 Qed.
 
 (* ---- (5) lost for ever ------------------------------------------------------------------------------------------ *)
-(* a transaction that is marked seen and is neither in a block record nor in the queue never comes back *)
-Definition Linv (t : tx) (a : abs) : Prop := In t (aS a) /\ ~ stored a t.
+(* a transaction that is marked seen and is in no block record, in no queued batch and in no stale record never comes back *)
+Definition stored3 (a : abs) (t : tx) : Prop := In t (concat (aB a)) \/ In t (concat (aQ a)) \/ In t (concat (aZ a)).
+Definition Linv (t : tx) (a : abs) : Prop := In t (aS a) /\ ~ stored3 a t.
+
+Lemma in_concat_snoc {A} (x : A) (l : list (list A)) b : In x (concat (l ++ [b])) <-> In x (concat l) \/ In x b.
+Proof. rewrite concat_app, in_app_iff. cbn. rewrite app_nil_r. tauto. Qed.
 
 Lemma Linv_tr t fl fc a b : tr fl fc a b -> Linv t a -> Linv t b.
 Proof.
-  intros H [Hs Hn]. destruct H; unfold Linv, stored in *; cbn [aB aQ aS] in *; auto.
-  - split; [apply in_or_app; right; exact Hs|]. intros [Hx|Hx]; [apply Hn; left; exact Hx|].
-    rewrite concat_app in Hx. apply in_app_or in Hx as [Hx|Hx]; [apply Hn; right; exact Hx|].
-    cbn in Hx. rewrite app_nil_r in Hx. rewrite H in Hx. apply select_sound in Hx as (_ & Hu & _).
+  intros H [Hs Hn]. destruct H; unfold Linv, stored3 in *; cbn [aB aQ aZ aS] in *; auto.
+  - (* put *)
+    split; [apply in_or_app; right; exact Hs|]. intros [Hx|[Hx|Hx]]; [apply Hn; auto | | apply Hn; auto].
+    apply in_concat_snoc in Hx as [Hx|Hx]; [apply Hn; auto|].
+    rewrite H in Hx. apply select_sound in Hx as (_ & Hu & _).
     apply memb_false in Hu. exact (Hu Hs).
-  - split; [exact Hs|]. intros [Hx|Hx]; apply Hn; [left; exact Hx | right; cbn; apply in_or_app; right; exact Hx].
-  - split; [exact Hs|]. intros [Hx|Hx]; apply Hn.
-    + rewrite concat_app in Hx. apply in_app_or in Hx as [Hx|Hx]; [left; exact Hx|].
-      cbn in Hx. rewrite app_nil_r in Hx. right. cbn. apply in_or_app; left; exact Hx.
-    + right. cbn. apply in_or_app; right; exact Hx.
-  - split; [exact Hs|]. intros [Hx|Hx]; apply Hn; [|right; exact Hx].
-    rewrite concat_app in Hx. cbn in Hx. rewrite app_nil_r in Hx. left; exact Hx.
+  - (* keep: the batch is in the queue *)
+    split; [exact Hs|]. intros [Hx|[Hx|Hx]]; [apply Hn; auto | apply Hn; auto |].
+    apply in_concat_snoc in Hx as [Hx|Hx]; [apply Hn; auto|].
+    apply Hn. right; left. apply in_concat. exists b. split; assumption.
+  - (* requeue *)
+    split; [exact Hs|]. intros [Hx|[Hx|Hx]]; [apply Hn; auto | | destruct Hx].
+    rewrite concat_app in Hx. apply in_app_or in Hx as [Hx|Hx]; apply Hn; auto.
+  - (* drop *)
+    split; [exact Hs|]. intros [Hx|[Hx|Hx]]; apply Hn; [auto | right; left; cbn; apply in_or_app; right; exact Hx | auto].
+  - (* move *)
+    split; [exact Hs|]. intros [Hx|[Hx|Hx]]; apply Hn; [| right; left; cbn; apply in_or_app; right; exact Hx | auto].
+    apply in_concat_snoc in Hx as [Hx|Hx]; [auto | right; left; cbn; apply in_or_app; left; exact Hx].
+  - (* empty *)
+    split; [exact Hs|]. intros [Hx|[Hx|Hx]]; apply Hn; [|auto|auto].
+    apply in_concat_snoc in Hx as [Hx|[]]. auto.
 Qed.
 
 Definition lostb (t : tx) (s : st) : bool :=
-  memb t (seen s) && negb (memb t (concat (block_txs s))) && negb (memb t (concat (queue s))).
+  memb t (seen s) && negb (memb t (concat (block_txs s))) && negb (memb t (concat (queue s))) && negb (memb t (concat (stale s))).
 
 Lemma lost_forever max gt h t :
   lostb t (final max gt h) = true ->
   forall h', ~ In t (concat (block_txs (final max gt (h ++ h')))).
 Proof.
   intros Hl h'. unfold final. rewrite run_app. fold (final max gt h).
-  unfold lostb in Hl. apply andb_true_iff in Hl as [Hl H3]. apply andb_true_iff in Hl as [H1 H2].
-  apply negb_true_iff in H2, H3. apply memb_in in H1. apply memb_false in H2, H3.
+  unfold lostb in Hl. apply andb_true_iff in Hl as [Hl H4]. apply andb_true_iff in Hl as [Hl H3]. apply andb_true_iff in Hl as [H1 H2].
+  apply negb_true_iff in H2, H3, H4. apply memb_in in H1. apply memb_false in H2, H3, H4.
   assert (HL : Linv t (absf (run max gt (final max gt h) h'))).
   { eapply (star_inv (Linv t) true true); [intros a b; apply Linv_tr | apply run_star; apply run_shape, shape_st0 |].
-    split; [exact H1 | intros [?|?]; contradiction]. }
+    split; [exact H1 | intros [?|[?|?]]; contradiction]. }
   destruct HL as [_ HL]. intros Hx. apply HL. left. exact Hx.
+Qed.
+
+(* ---- (5b) a write fault the code swallows without any other effect: the cursor write -------------------------------- *)
+(* if write attempt k of a produce step is the SetMetadata(LastBatchDataKey) of retrieveBatch, the step with that
+   attempt failing leaves the node in exactly the state of the step without a fault: the batch in hand is built
+   into the block all the same *)
+Lemma cursor_fault_harmless max gt s ts k :
+  nth_error (writes_of (fst (acts_of max gt s (AProduce ts)))) k = Some WMeta ->
+  step max gt s (IFault (AProduce ts) k) = step max gt s (IRun (AProduce ts)) /\
+  fst (observe max gt s (IFault (AProduce ts) k)) = fst (observe max gt s (IRun (AProduce ts))).
+Proof.
+  intros H. cbn [step item_acts observe fst snd pre]. rewrite fault_acts_fst.
+  unfold fault_acts_of. destruct (acts_of max gt s (AProduce ts)) as [L c] eqn:Ea. cbn [fst] in *.
+  destruct (fault_at L k WMeta H) as (pr & post & E1 & E2 & E3). cbn [swallowed] in E3. rewrite E3. cbn [fst snd].
+  split; [|reflexivity].
+  rewrite E1, !apply_acts_app, !apply_acts_cons. reflexivity.
 Qed.
 
 (* ---- (6) the queue of this model is the FIFO specification of C10 ------------------------------------------------
